@@ -17,22 +17,27 @@ Leaves == {2, 3, 5, 6, 7, 8}
 N == 8
 ONodes == [i \in 1..N |-> [par |-> Par[i], kind |-> IF i \in Leaves THEN "leaf" ELSE "block", st |-> "VALID", l0 |-> L0[i], l1 |-> L1[i], oid |-> i, whole |-> TRUE]]
 
-VARIABLES st, gone, newtext, touched, nedits
-vars == <<st, gone, newtext, touched, nedits>>
-Init == /\ st = [i \in 1..N |-> "VALID"] /\ gone = {} /\ newtext = [i \in 1..N |-> ""] /\ touched = {} /\ nedits = 0
+VARIABLES st, gone, newtext, touched, own, nedits
+vars == <<st, gone, newtext, touched, own, nedits>>
+Init == /\ st = [i \in 1..N |-> "VALID"] /\ gone = {} /\ newtext = [i \in 1..N |-> ""] /\ touched = {} /\ own = {} /\ nedits = 0
 
 Ancs(i) == {a \in 1..N : a # i /\ IsAnc(ONodes, a, i)}
 Invalidate(s, i) == [j \in 1..N |-> IF j \in Ancs(i) THEN (IF s[j] = "VALID" THEN "INVALID_CHILDREN" ELSE s[j]) ELSE s[j]]
 Replace(i) == /\ i \in Leaves \ gone /\ nedits < MaxEdits
               /\ st' = [Invalidate(st, i) EXCEPT ![i] = "NONE"] /\ newtext' = [newtext EXCEPT ![i] = "x = 0"]
-              /\ gone' = gone /\ touched' = touched \cup {i} /\ nedits' = nedits + 1
+              /\ gone' = gone /\ touched' = touched \cup {i} /\ nedits' = nedits + 1 /\ own' = own
 Remove(i) == /\ i \in Leaves \ gone /\ nedits < MaxEdits
              /\ st' = Invalidate(st, i) /\ gone' = gone \cup {i} /\ newtext' = newtext
-             /\ touched' = touched \cup {i} /\ nedits' = nedits + 1
+             /\ touched' = touched \cup {i} /\ nedits' = nedits + 1 /\ own' = own
 Subst(i) == /\ i \in Leaves \ gone /\ nedits < MaxEdits
             /\ st' = [Invalidate(st, i) EXCEPT ![i] = "INVALID_NODE"] /\ newtext' = [newtext EXCEPT ![i] = "y = 9"]
-            /\ gone' = gone /\ touched' = touched \cup {i} /\ nedits' = nedits + 1
-Next == \E i \in 1..N : Replace(i) \/ Remove(i) \/ Subst(i)
+            /\ gone' = gone /\ touched' = touched \cup {i} /\ nedits' = nedits + 1 /\ own' = own \cup {i}
+\* a substitution that changes the own expressions of a block (loop header): whatever the block's status was
+\* (VALID or already INVALID_CHILDREN after an earlier edit below it) it becomes INVALID_NODE
+SubstOwn(i) == /\ i \in (1..N) \ (Leaves \cup {1}) /\ nedits < MaxEdits
+               /\ st' = [Invalidate(st, i) EXCEPT ![i] = "INVALID_NODE"] /\ newtext' = [newtext EXCEPT ![i] = "DO j=1,n"]
+               /\ gone' = gone /\ touched' = touched \cup {i} /\ nedits' = nedits + 1 /\ own' = own \cup {i}
+Next == \E i \in 1..N : Replace(i) \/ Remove(i) \/ Subst(i) \/ SubstOwn(i)
 Spec == Init /\ [][Next]_vars
 
 \* the tree after the history (removed nodes dropped; indices renumbered in pre-order)
@@ -41,7 +46,7 @@ Rank(i) == Cardinality({j \in Alive : j <= i})
 NewNodes(s) == [k \in 1..Cardinality(Alive) |->
                   LET i == CHOOSE i \in Alive : Rank(i) = k IN
                   [par |-> IF Par[i] = 0 THEN 0 ELSE Rank(Par[i]), kind |-> ONodes[i].kind, st |-> s[i], l0 |-> L0[i], l1 |-> L1[i],
-                   oid |-> IF s[i] = "VALID" THEN i ELSE 0, whole |-> TRUE]]
+                   oid |-> i, whole |-> TRUE]]
 \* the abstract conservative emitter: a VALID node prints its original lines (regen = a node that is regenerated anyway)
 RECURSIVE Emit(_, _, _)
 Kids(i) == {j \in Alive : Par[j] = i}
@@ -52,10 +57,11 @@ Emit(s, i, regen) ==
   IF s[i] = "VALID" /\ i # regen THEN SubSeq(Orig, L0[i], L1[i])
   ELSE IF i \in Leaves THEN <<IF newtext[i] = "" THEN "REGENERATED" ELSE newtext[i]>>
   ELSE IF i = 1 THEN EmitKids(s, Kids(i), regen, <<>>)
-  ELSE <<IF s[i] = "VALID" THEN "DO i=1,n" ELSE Orig[L0[i]]>> \o EmitKids(s, Kids(i), regen, <<>>) \o <<Orig[L1[i]]>>
+  ELSE <<IF s[i] = "VALID" THEN "DO i=1,n" ELSE IF s[i] = "INVALID_CHILDREN" THEN Orig[L0[i]] ELSE newtext[i]>>
+       \o EmitKids(s, Kids(i), regen, <<>>) \o <<Orig[L1[i]]>>
 RECURSIVE SetToSeqT(_)
 SetToSeqT(T) == IF T = {} THEN <<>> ELSE LET x == CHOOSE x \in T : TRUE IN <<x>> \o SetToSeqT(T \ {x})
-Case(s, regen) == [orig |-> Orig, onodes |-> ONodes, nodes |-> NewNodes(s), touched |-> SetToSeqT(touched), out |-> Emit(s, 1, regen), l0 |-> 1, l1 |-> 8]
+Case(s, regen) == [orig |-> Orig, onodes |-> ONodes, nodes |-> NewNodes(s), touched |-> SetToSeqT(touched), own |-> SetToSeqT(own), out |-> Emit(s, 1, regen), l0 |-> 1, l1 |-> 8]
 
 \* 1. the contract satisfies all clauses
 ContractAccepted == Findings(Case(st, 0)) = <<>>
@@ -66,6 +72,11 @@ AncestorLeftValid == \A t \in touched : \A a \in Ancs(t) :
                         \E k \in DOMAIN Findings(Case([st EXCEPT ![a] = "VALID"], 0)) : Findings(Case([st EXCEPT ![a] = "VALID"], 0))[k][1] = "valid-sound"
 \* 4. an emitter that regenerates an outermost VALID node (its text differs from the original) is rejected by ValidEmitted
 \*    (or by Unmodified when nothing was edited)
+\* 5. a status that is not upgraded (the block whose header changed stays INVALID_CHILDREN, so the emitter re-uses the
+\*    original header) is rejected by ChildrenOnly and by StaleHeader
+Has(fs, cl) == \E k \in DOMAIN fs : fs[k][1] = cl
+NoUpgradeRejected == \A b \in own \ Leaves :
+                        LET fs == Findings(Case([st EXCEPT ![b] = "INVALID_CHILDREN"], 0)) IN Has(fs, "children-only") /\ Has(fs, "stale-header")
 Outermost(i) == st[i] = "VALID" /\ \A a \in Ancs(i) : st[a] # "VALID"
 RegenRejected == \A i \in Alive \ {1} : Outermost(i) => Findings(Case(st, i)) # <<>>
 =============================================================================
